@@ -181,6 +181,10 @@ def check(run, prog, tier):
     from rules import C11
     C11.fault_locality(run, prog, "C09-d")
 
+    # ---- C09-g
+    run.rule("C09-g", "heart-beat round state (shared with C11-e): cursor and round length are assigned at the start of every round, so a round left by an error cannot make the next one start at a stale (possibly -1) index", 2)
+    C11.round_init(run, prog, "C09-g")
+
     # ---- C09-c stale connection records
     from rules import C09c
     C09c.check(run, prog, tier, cg, eff)
